@@ -48,7 +48,7 @@ Mutants(b) ==
   \cup { [mut |-> "trail", b |-> b \o x] : x \in {<<0>>, <<0, 0>>, <<5, 0>>, <<48, 130, 255, 255>>} }
   \cup UNION { NodeMutants(b, n) : n \in Nodes(b, 1, Len(b), 0) }
 
-Why(ver, b) == LET d == Decode(ver, b) IN IF d.c = Reject THEN d.why ELSE IF d.c = Free THEN "free" ELSE IF d.c = Lenient THEN "lenient" ELSE ""
+Why(ver, b) == LET d == Decode(ver, b) IN IF d.c = Reject THEN d.why ELSE IF d.c = Free THEN "free" ELSE IF d.c = Lenient THEN "lenient" ELSE IF d.c = NonMin THEN "nonminimal" ELSE ""
 
 ASSUME \A i \in 1..Len(Templates) :
          LET t == Templates[i] IN
